@@ -339,8 +339,13 @@ func scanBound(c *Ctx, s *ssa.Function) (*loopVar, *Branch) {
 		if br.Cond.X == nil || br.Cond.Y == nil {
 			continue
 		}
-		n, fl, base, _ := loadedField(br.Cond.Y)
-		if br.Cond.Op == token.LSS && off.is(br.Cond.X) && n == c.V.Inode && fl == "Size" && base == ssa.Value(s.Params[0]) {
+		// off < size (stay in the loop) or off >= size (leave it), either way round
+		op, x, y := br.Cond.Op, br.Cond.X, br.Cond.Y
+		if off.is(y) {
+			op, x, y = flipOp(op), y, x
+		}
+		n, fl, base, _ := loadedField(y)
+		if (op == token.LSS || op == token.GEQ) && off.is(x) && n == c.V.Inode && fl == "Size" && base == ssa.Value(s.Params[0]) {
 			return off, &br
 		}
 	}
